@@ -503,6 +503,11 @@ class CNF(SimpleSequence[Clause]):
         # TODO: Describe this function's purpose.
         in_binary =  int_to_binary(k)
         sum_bits = self.pop_count(in_list, len(in_binary)+1)
+        if len(in_binary) > len(sum_bits):
+            # `k` needs more bits than the pop count can ever have, so `k` is
+            # larger than `len(in_list)` and nothing can satisfy the assertion.
+            self.prepend(CNF([Clause(sum_bits[0]), Clause(~sum_bits[0])]))
+            return
         # Add zero padding to the left.
         in_binary.reverse()
         left_padded: BinaryNumber = in_binary[:len(sum_bits)]
@@ -528,6 +533,16 @@ class CNF(SimpleSequence[Clause]):
         assertion = [Var(kv.value * b) for (kv, b) in zip(k_vars, in_binary)]
         self.prepend(CNF([Clause(x) for x in assertion]))
         self._make_same_length(k_vars, sum_bits)
+        if len(k_vars) == len(in_binary) and not (assert_less_than and k == 2 ** (len(in_binary) - 1)):
+            # The lists already had the same length, so neither got a leading
+            # zero. The subtraction below is done in two's complement and
+            # reads the top bit as the sign, so both need one (except when
+            # asserting `sum < k` for a power of two `k`, which cannot
+            # overflow).
+            for bits in (k_vars, sum_bits):
+                sign_bit = self.get_n_fresh(1)
+                self.zero_out(sign_bit)
+                bits[:0] = sign_bit
         if assert_less_than:
             kbs, nbs = sum_bits, k_vars
         else:
